@@ -93,6 +93,8 @@ static void explore(int *pre, int np, int used) {
 static void one_config(int T, int dispatch, int setting, const char *bdesc) {
     settings = dtw_settings_default();
     if (setting == 1) { settings.window = 2; settings.psi_1b = settings.psi_1e = settings.psi_2b = settings.psi_2e = 1; settings.penalty = 0.5; }
+    if (setting == 2) { settings.use_pruning = true; }
+    if (setting == 3) { settings.max_dist = 2.5; settings.psi_1b = 1; }
     for (int i = 0; i < 64; i++) ref[i] = -7.0;
     reflen = call(0, ref);
     snprintf(cfgdesc, sizeof cfgdesc, "entry=%d n=%d block=%s T=%d dispatch=%d setting=%d bound=%d", entry, n, bdesc, T, dispatch, setting, bound);
@@ -152,8 +154,9 @@ int main(int argc, char **argv) {
                 if (entry >= 4) { /* matrices variants need an explicit block for a defined layout */ }
                 snprintf(bdesc, sizeof bdesc, "none");
             }
-            for (int T = 1; T <= maxT; T++) for (int dispatch = 0; dispatch < 5; dispatch++) for (int setting = 0; setting < 2; setting++) {
+            for (int T = 1; T <= maxT; T++) for (int dispatch = 0; dispatch < 5; dispatch++) for (int setting = 0; setting < 4; setting++) {
                 if (T == 1 && dispatch > 0) continue;
+                if (setting >= 2 && dispatch != 0 && dispatch != 2) continue;   /* pruning / max_dist variants: static-1 and dynamic-1 */
                 one_config(T, dispatch, setting, bdesc);
             }
         }
